@@ -67,9 +67,17 @@ def show(d):
 # --------------------------------------------------------------------------
 # lifting descriptors to library objects through the public constructors
 
+def negzero(x):
+    """float with zero written as -0.0 (what negating or scaling a zero coordinate produces)"""
+    x = float(x)
+    return -0.0 if x == 0 else x
+
+
 def num(x, nt):
     if nt is float:
         return float(x)
+    if nt is negzero:
+        return negzero(x)
     if nt is int:
         if x != int(x):
             raise ValueError("not integral")
